@@ -51,6 +51,27 @@ TECHNIQUE = {
     "C02": "who-may-write/who-may-call over the resolved call graph + path-sensitive typestate fixpoint on per-function CFGs with verified callee contracts",
     "C03": "path-sensitive typestate (ack/consequence ordering, id disposal) on CFGs + dominance checks on the ack primitive and completion paths",
 }
+
+# clauses added after the third blind round (sa/rules/round3.py); appended to the level text
+ROUND3 = {
+    "C01": " Also (shared): aliasing of a selected value with the raw input, typed Choice helpers, Task.Terminated conversion only for the Task's own branch.",
+    "C02": " Also: functions handed the execution record never write it; the terminated range is the launched batch window.",
+    "C03": " Also: a retained reply is acknowledged only by its expiry handler (or when replaced); dispatch's drop arms acknowledge the delivery itself; the id-table acknowledge is lookup/ack-one/delete inside a catch-all.",
+    "C04": " Also: the orphan sweep re-arms on every path; JSONStore writes through on every path.",
+    "C05": " Also: terminated range = launched batch window; a __TERMINATED__ write is guarded by its own group's terminated flag; correlation keys unique per event.",
+    "C07": " Also (shared): a late sibling failure after the state was caught is converted to Task.Terminated.",
+    "C08": " Also: both transports pass the delay through unchanged except the clamp at 0; a request's timer is cleared only where the request is removed.",
+    "C09": " Also: start_execution re-creates record and history under the STANDARD test only, before ExecutionStarted.",
+    "C10": " Also: record/history re-creation unconditional for STANDARD; the validator's checker is built per validation.",
+    "C11": " Also: ListExecutions enumerates the whole store with exactly the ARN and status filters; record re-creation on every start.",
+    "C13": " Also (shared): where the templates are evaluated (once per state / per Map item).",
+    "C14": " Also (shared): Variable lookup through apply_jsonpath for falsy inputs.",
+    "C15": " Also: the error name SendTaskFailure publishes is never falsy.",
+    "C16": " Also: the reply size test measures the received body and precedes parsing.",
+    "C18": " Also: checker per validation; drop arms acknowledge directly; no hash-requiring use of a document value without a string test; membership/subscript on document values guarded.",
+    "C19": " Also: the REST front ends never consult the instance's own queue identity; callbacks go to the token's reply queue unchanged.",
+    "C20": " Also: UpdateStateMachine assigns the record back before answering 200.",
+}
 NOTE = ("Trusted base: CPython ast/symtable; broker redelivery; third-party libraries behave as documented; engine-internal calls do not raise "
         "(exception edges come from the may-raise table in sa/flow.py). The check reads /repo source only and never imports or runs it. "
         "A green result means the listed structural clauses hold on all paths of the current source, not that the behaviour holds.")
@@ -69,7 +90,7 @@ def main():
                 "evidence_file": "evidence/%s.json" % pid,
                 "replay_cmd_template": "./check --replay {path}",
                 "engine": "sa",
-                "level_claimed": {"category": "other", "text": LEVEL_TEXT[pid], "design_ref": "DESIGN.md section 5, " + pid},
+                "level_claimed": {"category": "other", "text": LEVEL_TEXT[pid] + ROUND3.get(pid, ""), "design_ref": "DESIGN.md section 5, " + pid},
                 "level_note": NOTE,
                 "technique": "static analysis: " + TECHNIQUE[pid],
             })
